@@ -23,26 +23,45 @@ RULE = ("states = scheduling points visited; transitions = complete schedules (t
         "real code under the controlled scheduler; every schedule's recorded history is checked against the sequential "
         "model (linearizability by brute force) - traces_validated_against_impl counts them")  # fmt: skip
 
-A = '/* exp A\n   multi-line */ def exp { salt: "sa" /* c1 */ /* c2 */ splitters: uid\n if f == 1 { return "A1" weighted 1, "A2" weighted 2 } // tail\n else { return "A3" weighted 1 } }'
-B = 'def exp { /* B */ splitters: uid return "B1" weighted 1, "B2" weighted 1 /* end\n */ }'
-C = '// other\ndef other { salt: "sc" splitters: uid if f in (1, 2) { return "C1" weighted 3, "C2" weighted 1 } }'
+def _groups(prefix, n=16):
+    return ", ".join(f'"{prefix}{i}" weighted 1' for i in range(n))
+
+
+# every return has 16 equal groups, so that each probe input's result reveals its hash position
+A = ('/* exp A\n   multi-line */ def exp { salt: "sa" /* c1 */ /* c2 */ splitters: uid\n if f == 1 { return ' + _groups("A") +
+     ' } // tail\n else { return ' + _groups("a") + ' } }')
+B = 'def exp { /* B */ splitters: uid return ' + _groups("B") + ' /* end\n */ }'
+C = '// other\ndef other { salt: "sc" splitters: uid if f in (1, 2) { return ' + _groups("C") + ' } }'
 TA = '/* c */ def exp { splitters: uid return "TA" weighted 1 }'
 TB = 'def exp { /* d\n */ splitters: uid return "TB" weighted 1 }'
-TEXTS = {"A": A, "B": B, "C": C, "TA": TA, "TB": TB}
+TC = 'def oth { splitters: uid return "TC" weighted 1 // e\n }'
+TEXTS = {"A": A, "B": B, "C": C, "TA": TA, "TB": TB, "TC": TC}
 INPUTS = [{"uid": 1, "f": 1}, {"uid": "x", "f": 0}, {"uid": 7, "f": 2}]
 TABLE = {}
 
 
-def prepare():
-    if TABLE:
-        return
+def _tables():
+    out = {}
     for k, t in TEXTS.items():
         b = impl.build(t)
         if b[0] != "ok":
             raise HarnessFault(f"harness text {k} does not compile sequentially: {b}")
-        TABLE[k] = [norm(impl.call(b[1], x)) for x in INPUTS]
+        out[k] = [norm(impl.call(b[1], x)) for x in INPUTS]
+    return out
+
+
+def prepare():
+    """sequential reference results, computed in a forked child: this process never runs library code"""
+    if TABLE:
+        return
+    from ..xlife import in_child
+
+    TABLE.update(in_child(_tables))
     if len({repr(TABLE[k]) for k in ("A", "B", "C")}) < 3:
         raise HarnessFault("harness texts are not distinguishable on the probe inputs")
+    for k in ("A", "B", "C"):
+        if len({repr(r) for r in TABLE[k]}) < len(INPUTS):
+            raise HarnessFault(f"probe inputs of text {k} do not have pairwise distinct outcomes: {TABLE[k]}")
 
 
 def norm(out):
@@ -115,6 +134,31 @@ def harness(name):
             return [body, body], ctx
 
         return make
+    if name == "H5":
+        # evaluation only: two threads call one shared evaluator with different units
+        def make():
+            ev = impl.ExperimentEvaluator(A)
+            ctx = {"kind": "lin", "ev": ev}
+            return [lambda ex, tid: (op_call(ex, tid, ev, 0), op_call(ex, tid, ev, 0), op_call(ex, tid, ev, 1)),
+                    lambda ex, tid: (op_call(ex, tid, ev, 2), op_call(ex, tid, ev, 2), op_call(ex, tid, ev, 1))], ctx  # fmt: skip
+
+        return make
+    if name == "H4t":
+        # H4 on tiny texts (used when exploration escalates to line points inside SLY)
+        def make():
+            ev = impl.ExperimentEvaluator(TA)
+            ctx = {"kind": "lin", "ev": ev, "init": "TA"}
+
+            def body(key):
+                def run(ex, tid):
+                    op_recompile(ex, tid, ev, key)
+                    op_call(ex, tid, ev, 0)
+
+                return run
+
+            return [body("TB"), body("TC")], ctx
+
+        return make
     if name == "H4":
         def make():
             ev = impl.ExperimentEvaluator(A)
@@ -151,19 +195,23 @@ def check(ex, ctx):
     t_end = ex.clock + 10
     for xi, r in enumerate(final):
         ops.append({"tid": -1, "op": ("call", xi), "inv": t_end + 2 * xi, "res": t_end + 2 * xi + 1, "value": r})
-    if not xsched.linearizable(ops, "A", model):
+    if not xsched.linearizable(ops, ctx.get("init", "A"), model):
         hist = [(o["tid"], o["op"], o["value"], o["inv"], o["res"]) for o in ops]
         return {"kind": "sched:linearizability", "why": "no sequential order of the operations explains the results", "history": short(repr(hist), 900)}
     return None
 
 
+ISOLATE = [False]  # set when the library keeps state at module level: every schedule runs in a forked child
+
 PLAN = {
     # name -> list of (harness, mode, modules, bound, cap)
     "quick": [("H2", "attr", "core", 99, None), ("H3", "attr", "core", 99, None), ("H4", "attr", "core", 3, None),
-              ("H12", "line", "core", 2, None), ("H2", "line", "core", 2, None), ("H3", "line", "core", 2, None), ("H4", "line", "core", 1, None)],
+              ("H12", "line", "core", 1, None), ("H2", "line", "core", 2, None), ("H3", "line", "core", 2, None), ("H4", "line", "core", 1, None),
+              ("H5", "line", "core", 2, None)],
     "thorough": [("H2", "attr", "core", 99, None), ("H3", "attr", "core", 99, None), ("H4", "attr", "core", 99, None),
                  ("H12", "line", "core", 2, None), ("H13", "line", "core", 2, None), ("H2", "line", "core", 3, None), ("H3", "line", "core", 3, None),
-                 ("H4", "line", "core", 2, None), ("H2", "instr", "core", 2, None), ("H3", "instr", "core", 2, None), ("H12", "instr", "core", 1, None)],
+                 ("H4", "line", "core", 2, None), ("H5", "line", "core", 3, None), ("H2", "instr", "core", 2, None), ("H3", "instr", "core", 2, None),
+                 ("H5", "instr", "core", 2, None), ("H12", "instr", "core", 1, None)],
 }  # fmt: skip
 
 
@@ -174,7 +222,7 @@ def _work(units):
         stats = {}
         modules = xsched.CORE_MODULES if mods == "core" else xsched.DEEP_MODULES
         with xsched.Instrument(mode, modules) as ins:
-            v = xsched.explore(harness(hname), check, bound, prefix=prefix, stats=stats, cap=cap)
+            v = xsched.explore(harness(hname), check, bound, prefix=prefix, stats=stats, cap=cap, isolate=ISOLATE[0])
             shared = ins.shared_instances()
         for k, n in stats.items():
             if isinstance(n, bool):
@@ -193,22 +241,42 @@ def _work(units):
     return out
 
 
-def plan_units(res, entry):
-    """default schedule once in this process (twice: replay determinism), then one unit per first deviation"""
+def _probe(entry):
+    """(in a forked child) default schedule twice + module-level fingerprint before / after"""
+    from ..xlife import global_fingerprint
+
     hname, mode, mods, bound, cap = entry
     modules = xsched.CORE_MODULES if mods == "core" else xsched.DEEP_MODULES
-    with xsched.Instrument(mode, modules):
+    fp0 = global_fingerprint()
+    with xsched.Instrument(mode, modules) as ins:
         ex, _ = xsched.run_schedule(harness(hname), [])
+        fp1 = global_fingerprint()
         ex2, _ = xsched.run_schedule(harness(hname), [p[3] for p in ex.points])
-    if ex.fault or ex2.fault:
-        raise HarnessFault(f"{hname}/{mode}: {ex.fault or ex2.fault}")
-    if [p[:3] for p in ex.points] != [p[:3] for p in ex2.points]:
-        raise HarnessFault(f"{hname}/{mode}: replaying the same schedule twice gave different point sequences")
-    res.set(f"points_default_schedule/{hname}/{mode}/{mods}", len(ex.points))
-    choices = [p[3] for p in ex.points]
+        shared = ins.shared_instances()
+    return {"points": [tuple(p) for p in ex.points], "fault": ex.fault or ex2.fault, "fp_changed": fp0 != fp1,
+            "reproducible": [p[:3] for p in ex.points] == [p[:3] for p in ex2.points], "shared": shared}  # fmt: skip
+
+
+def plan_units(res, entry):
+    """default schedule once (in a forked child, twice: replay determinism), then one unit per first deviation"""
+    from ..xlife import in_child
+
+    hname, mode, mods, bound, cap = entry
+    pr = in_child(lambda: _probe(entry))
+    if pr["fault"]:
+        raise HarnessFault(f"{hname}/{mode}: {pr['fault']}")
+    if pr["fp_changed"] or not pr["reproducible"]:
+        # the library keeps state at module level: executions are only independent in separate process images
+        ISOLATE[0] = True
+        res.set("isolated_mode", f"{hname}/{mode}: module-level state changed={pr['fp_changed']}, same schedule reproducible in one process={pr['reproducible']}")
+    if pr["shared"]:
+        res.add("shared_sly_instances", len(pr["shared"]))
+    points = pr["points"]
+    res.set(f"points_default_schedule/{hname}/{mode}/{mods}", len(points))
+    choices = [p[3] for p in points]
     units = [(hname, mode, mods, bound, cap, "ROOT")]
-    for i, (_t, _l, n_en, _c, is_exit, _g) in enumerate(ex.points):
-        cost = xsched.preemptions(ex.points, i) + (0 if is_exit else 1)
+    for i, (_t, _l, n_en, _c, is_exit, _g) in enumerate(points):
+        cost = xsched.preemptions(points, i) + (0 if is_exit else 1)
         if cost > bound:
             continue
         for alt in range(1, n_en):
@@ -216,7 +284,8 @@ def plan_units(res, entry):
     return units
 
 
-ESCALATION = {"quick": [("H1t", "line", "deep", 1, None)], "thorough": [("H1t", "line", "deep", 1, None), ("H12", "line", "deep", 1, None), ("H1t", "line", "deep", 2, 40)]}
+ESCALATION = {"quick": [("H1t", "line", "deep", 1, None), ("H4t", "line", "deep", 1, None)],
+              "thorough": [("H1t", "line", "deep", 1, None), ("H4t", "line", "deep", 1, None), ("H12", "line", "deep", 1, None), ("H1t", "line", "deep", 2, 40)]}
 
 
 def run(res, tier):
@@ -224,15 +293,19 @@ def run(res, tier):
     units = []
     for entry in PLAN[tier]:
         units += plan_units(res, entry)
-    for w in pmap(_work_split, permuted(units, "c17"), chunk=1):
+    for w in pmap(_work_split, permuted(units, "c17"), chunk=1, inline_ok=False):
         res.merge_worker(w)
-    if res.cov.get("shared_sly_instances"):
+        if len(res.violations) >= 12:
+            break
+    if not res.violations and (res.cov.get("shared_sly_instances") or ISOLATE[0]):
         res.set("escalated", True)
         units = []
         for entry in ESCALATION[tier]:
             units += plan_units(res, entry)
-        for w in pmap(_work_split, permuted(units, "c17e"), chunk=4):
+        for w in pmap(_work_split, permuted(units, "c17e"), chunk=4, inline_ok=False):
             res.merge_worker(w)
+            if len(res.violations) >= 12:
+                break
     if tier == "thorough" or os.environ.get("VERIF_TLC"):
         tlc_calibration(res)
     res.set("states", res.cov.get("points", 0))
